@@ -271,7 +271,10 @@ def run_property(prop_factory, tier, seed, replay=None):
     if replay:
         case = json.load(open(replay))
         case = case.get("case", case)
-        fs = _eval_cases(prop, [case], stats)
+        if case.get("_external") and hasattr(prop, "replay_external"):
+            fs = prop.replay_external(case)
+        else:
+            fs = _eval_cases(prop, [case], stats)
         for c, f, o in fs:
             print("REPLAY-FAIL %s: %s" % (pid, f))
             print("VIOLATION property=%s replay=%s" % (pid, replay))
@@ -345,7 +348,7 @@ def run_property(prop_factory, tier, seed, replay=None):
         if len(confirmed) >= 25:
             break
         ok = 0
-        for _ in range(3):
+        for _ in range(0 if c.get("_external") else 3):
             s = Server(paths[prop.server_of(c)], env=envs.get(prop.server_of(c)))
             ob = s.run_one(prop.request(c))
             s.close()
@@ -380,11 +383,18 @@ def run_property(prop_factory, tier, seed, replay=None):
         if e.get("status") != "known" or e.get("witness") is None:
             continue
         wcase = dict(e["witness"], _witness=True)
-        ob = _srv(prop.server_of(wcase)).run_one(prop.request(wcase))
-        try:
-            ff = prop.check(wcase, ob)
-        except Exception as ex:
-            ff = "HARNESS-ERROR oracle exception on witness: %r" % (ex,)
+        if wcase.get("_external") and hasattr(prop, "replay_external"):
+            try:
+                wf = prop.replay_external(wcase)
+                ff = wf[0][1] if wf else None
+            except Exception as ex:
+                ff = "HARNESS-ERROR witness replay failed: %r" % (ex,)
+        else:
+            ob = _srv(prop.server_of(wcase)).run_one(prop.request(wcase))
+            try:
+                ff = prop.check(wcase, ob)
+            except Exception as ex:
+                ff = "HARNESS-ERROR oracle exception on witness: %r" % (ex,)
         if ff and not str(ff).startswith("HARNESS-ERROR") and match_known(e, prop.features(wcase, ff)):
             known_hits.setdefault(e["id"], []).append((wcase, ff))
         elif ff:
